@@ -145,6 +145,7 @@ def random_block(rng, ids, depth):
     if rng.random() < 0.2:
         notif = rng.choice([{'k': 'delay', 'd': 1}, {'k': 'ge', 't': 1.5}, {'k': 'eternity'}])
     return {'op': 'scope', 'n': notif, 'catch': rng.random() < 0.5, 'id': ids('b'),
+            'custom': notif is None and rng.random() < 0.15,
             'children': children, 'body': random_fate(rng, ids, depth),
             # (some blocks are driven through __aenter__ / __aexit__ by hand, like AsyncExitStack)
             'manual': rng.random() < 0.2}
